@@ -213,9 +213,11 @@ def coq_phase(ctx, targets):
         if not os.path.exists(os.path.join(VERIF, "coq", t)):
             res["failed"].append(t)
         else:
-            # stale .vo: must be newer than its source
-            src = os.path.join(VERIF, "coq", t[:-1])
-            if os.path.getmtime(os.path.join(VERIF, "coq", t)) < os.path.getmtime(src):
+            # a .vo left over from an earlier run does not count: make -q says
+            # whether the target is up to date with everything it depends on
+            q = subprocess.run(["make", "-f", "Makefile.coq", "-q", t], cwd=os.path.join(VERIF, "coq"),
+                               stdout=subprocess.DEVNULL, stderr=subprocess.DEVNULL)
+            if q.returncode != 0:
                 res["failed"].append(t)
     res["wall"] = time.time() - t0
     return res
@@ -233,6 +235,21 @@ def print_assumptions(targets):
         except subprocess.TimeoutExpired:
             out[src] = "timeout"
     return out
+
+
+def coqchk(targets, timeout=1500):
+    """independent re-check of the compiled property files (thorough tier)"""
+    coqdir = os.path.join(VERIF, "coq")
+    mods = ["TP." + t[:-3] for t in targets]
+    try:
+        r = subprocess.run(["coqchk", "-o", "-silent", "-Q", ".", "TP"] + mods, cwd=coqdir,
+                           stdout=subprocess.PIPE, stderr=subprocess.STDOUT, text=True, timeout=timeout)
+    except subprocess.TimeoutExpired:
+        return {"ok": False, "summary": "coqchk timed out after %ds" % timeout}
+    txt = r.stdout
+    i = txt.find("CONTEXT SUMMARY")
+    summ = txt[i:] if i >= 0 else txt[-1500:]
+    return {"ok": r.returncode == 0, "summary": " ".join(summ.split())[:1500]}
 
 
 def parse_assumptions(text):
